@@ -139,6 +139,13 @@ func (c *Ctx) classifyLoop(fd *ast.FuncDecl, s ast.Stmt) (string, string) {
 		if l.Cond == nil {
 			return "", "unconditional loop"
 		}
+		if sx := c.strNonEmpty(l.Cond); sx != nil {
+			if why := c.stringDrain(fd, l, sx); why == "" {
+				return "string-drain", "every iteration that continues replaces " + sx.Name() + " by a strictly shorter remainder of itself (strings.Cut / CutPrefix with a non-empty separator)"
+			} else {
+				return "", "loop over the string " + sx.Name() + ": " + why
+			}
+		}
 		x := c.lenGT0(l.Cond)
 		if x == "" {
 			return "", "loop condition is not of a catalogue shape: " + c.Src(l.Cond)
@@ -535,4 +542,200 @@ func ruleTermLoops(c *Ctx, r *R) {
 		}
 		r.fail(key, c.Pos(fd), "recursion through "+c.fnName(fd)+" has a cycle that does not descend the token tree ("+what+"): unbounded recursion exhausts the Go stack, which is fatal to the host")
 	}
+}
+
+// strNonEmpty: cond is `X != ""` (or len(X) > 0 handled elsewhere) for a string variable X.
+func (c *Ctx) strNonEmpty(cond ast.Expr) types.Object {
+	be, ok := unparen(cond).(*ast.BinaryExpr)
+	if !ok || be.Op != token.NEQ {
+		return nil
+	}
+	if v, ok := c.ConstString(be.Y); !ok || v != "" {
+		return nil
+	}
+	id, ok := unparen(be.X).(*ast.Ident)
+	if !ok {
+		return nil
+	}
+	o := c.Obj(id)
+	if o == nil {
+		return nil
+	}
+	if b, ok := o.Type().Underlying().(*types.Basic); !ok || b.Info()&types.IsString == 0 {
+		return nil
+	}
+	return o
+}
+
+// stringDrain: `for X != "" { .. }` terminates when (a) every assignment to X in the body
+// stores a remainder of X (the `after` of strings.Cut(X, sep) or the `rest` of
+// strings.CutPrefix(X, sep), sep a non-empty constant, optionally through strings.TrimSpace),
+// which is never longer than X, (b) a CutPrefix remainder is stored only after its `found`
+// result was tested (`if !found { return/break }`), so that it is strictly shorter, and
+// (c) every way back to the loop head — each continue and the end of the body — is
+// preceded by such a store on its own path.
+func (c *Ctx) stringDrain(fd *ast.FuncDecl, l *ast.ForStmt, x types.Object) string {
+	if l.Post != nil || l.Init != nil {
+		return "init/post statements not expected"
+	}
+	type rem struct {
+		strict bool         // strictly shorter without a test (Cut)
+		found  types.Object // CutPrefix: the found flag
+	}
+	rems := map[types.Object]rem{}
+	bad := ""
+	ast.Inspect(l.Body, func(n ast.Node) bool {
+		as, ok := n.(*ast.AssignStmt)
+		if !ok || len(as.Rhs) != 1 {
+			return true
+		}
+		call, ok := unparen(as.Rhs[0]).(*ast.CallExpr)
+		if !ok || len(call.Args) != 2 {
+			return true
+		}
+		nm := c.CalleeName(call)
+		if nm != "strings.Cut" && nm != "strings.CutPrefix" {
+			return true
+		}
+		a0, ok := unparen(call.Args[0]).(*ast.Ident)
+		if !ok || c.Obj(a0) != x {
+			return true
+		}
+		if sep, ok := c.ConstString(call.Args[1]); !ok || sep == "" {
+			return true
+		}
+		if as.Tok != token.DEFINE {
+			return true
+		}
+		if nm == "strings.Cut" && len(as.Lhs) == 3 {
+			if id, ok := as.Lhs[1].(*ast.Ident); ok && id.Name != "_" {
+				rems[c.Obj(id)] = rem{strict: true}
+			}
+		}
+		if nm == "strings.CutPrefix" && len(as.Lhs) == 2 {
+			id, ok1 := as.Lhs[0].(*ast.Ident)
+			fl, ok2 := as.Lhs[1].(*ast.Ident)
+			if ok1 && ok2 && id.Name != "_" && fl.Name != "_" {
+				rems[c.Obj(id)] = rem{found: c.Obj(fl)}
+			}
+		}
+		return true
+	})
+	// remainders are never reassigned
+	ast.Inspect(l.Body, func(n ast.Node) bool {
+		if as, ok := n.(*ast.AssignStmt); ok && as.Tok != token.DEFINE {
+			for _, lh := range as.Lhs {
+				if id, ok := unparen(lh).(*ast.Ident); ok {
+					if _, isRem := rems[c.Obj(id)]; isRem {
+						bad = "a remainder variable is reassigned"
+					}
+				}
+			}
+		}
+		if u, ok := n.(*ast.UnaryExpr); ok && u.Op == token.AND {
+			if id, ok := unparen(u.X).(*ast.Ident); ok && c.Obj(id) == x {
+				bad = "the address of the string is taken"
+			}
+		}
+		return true
+	})
+	if bad != "" {
+		return bad
+	}
+	isStore := func(s ast.Stmt, tested map[types.Object]bool) (bool, string) {
+		as, ok := s.(*ast.AssignStmt)
+		if !ok {
+			return false, ""
+		}
+		for i, lh := range as.Lhs {
+			id, ok := unparen(lh).(*ast.Ident)
+			if !ok || c.Obj(id) != x {
+				continue
+			}
+			if as.Tok != token.ASSIGN || len(as.Lhs) != 1 || i >= len(as.Rhs) {
+				return false, "assigned in an unrecognised statement: " + c.Src(as)
+			}
+			e := unparen(as.Rhs[0])
+			if call, ok := e.(*ast.CallExpr); ok && c.CalleeName(call) == "strings.TrimSpace" && len(call.Args) == 1 {
+				e = unparen(call.Args[0])
+			}
+			rid, ok := e.(*ast.Ident)
+			if !ok {
+				return false, "assigned something that is not a remainder of it: " + c.Src(as)
+			}
+			r, ok := rems[c.Obj(rid)]
+			if !ok {
+				return false, "assigned something that is not a remainder of it: " + c.Src(as)
+			}
+			if !r.strict && !tested[r.found] {
+				return false, "the CutPrefix remainder " + rid.Name + " is stored without its found flag having been tested"
+			}
+			return true, ""
+		}
+		return false, ""
+	}
+	nCont := 0
+	var walk func(list []ast.Stmt, shrunk bool, tested map[types.Object]bool) (bool, string)
+	// returns whether the end of the list is reached with X shrunk
+	walk = func(list []ast.Stmt, shrunk bool, tested map[types.Object]bool) (bool, string) {
+		for _, st := range list {
+			if ok, why := isStore(st, tested); why != "" {
+				return false, why
+			} else if ok {
+				shrunk = true
+				continue
+			}
+			switch s := st.(type) {
+			case *ast.BranchStmt:
+				if s.Tok == token.CONTINUE {
+					nCont++
+					if !shrunk {
+						return false, "a continue is reached without the string having been shortened"
+					}
+					return true, ""
+				}
+				return true, "" // break leaves the loop
+			case *ast.ReturnStmt:
+				return true, ""
+			case *ast.IfStmt:
+				if s.Else != nil {
+					return false, "if/else in the loop body not analysed"
+				}
+				t2 := map[types.Object]bool{}
+				for k, v := range tested {
+					t2[k] = v
+				}
+				if _, why := walk(s.Body.List, shrunk, t2); why != "" {
+					return false, why
+				}
+				// `if !found { return/break }` establishes found afterwards
+				if u, ok := unparen(s.Cond).(*ast.UnaryExpr); ok && u.Op == token.NOT && s.Init == nil {
+					if id, ok := unparen(u.X).(*ast.Ident); ok && len(s.Body.List) > 0 {
+						switch last := s.Body.List[len(s.Body.List)-1].(type) {
+						case *ast.ReturnStmt:
+							tested[c.Obj(id)] = true
+						case *ast.BranchStmt:
+							if last.Tok == token.BREAK {
+								tested[c.Obj(id)] = true
+							}
+						}
+					}
+				}
+				// the if body may or may not have shrunk: only what holds without it counts
+			case *ast.ForStmt, *ast.RangeStmt, *ast.SwitchStmt, *ast.TypeSwitchStmt, *ast.SelectStmt, *ast.BlockStmt, *ast.LabeledStmt, *ast.GoStmt, *ast.DeferStmt:
+				return false, "nested control statement in the loop body not analysed"
+			}
+		}
+		if !shrunk {
+			return false, "the end of the body is reached without the string having been shortened"
+		}
+		return true, ""
+	}
+	if _, why := walk(l.Body.List, false, map[types.Object]bool{}); why != "" {
+		return why
+	}
+	if nCont != len(loopContinues(l.Body)) {
+		return "a continue sits where the analysis did not look"
+	}
+	return ""
 }
